@@ -8,6 +8,37 @@
    the output over several index writers, IPv4 defragmentation, non TCP/UDP packets (skipped by the
    code), the index file format (C01). *)
 From Pk Require Export Tcp.
+From Coq Require Import Sorting.Mergesort Orders.
+
+Module NOrder <: TotalLeBool.
+  Definition t := N.
+  Definition leb := N.leb.
+  Theorem leb_total : forall a1 a2, leb a1 a2 = true \/ leb a2 a1 = true.
+  Proof. intros a b. unfold leb. destruct (N.leb_spec a b); [left; reflexivity|right]. apply N.leb_le. apply N.lt_le_incl. assumption. Qed.
+End NOrder.
+Module NSort := Sort NOrder.
+
+(* packets[i] for every referenced index i.  The code indexes the slice for each entry of the snapshot's list;
+   the model selects the same packets in one pass over the file (indexes sorted first) so that captures with
+   > 100 000 referenced packets stay linear.  The order of the result is irrelevant: it is sorted right after. *)
+Fixpoint drop_below (i : N) (idxs : list N) : list N :=
+  match idxs with
+  | [] => []
+  | x :: r => if x <? i then drop_below i r else idxs
+  end.
+
+Fixpoint select_sorted (pk : list packet) (idxs : list N) : list packet :=
+  match pk with
+  | [] => []
+  | p :: r =>
+      match drop_below (p_idx p) idxs with
+      | [] => []
+      | i :: is => if i =? p_idx p then p :: select_sorted r is else select_sorted r (i :: is)
+      end
+  end.
+
+Definition select_indexes (packets : list packet) (idxs : list N) : list packet :=
+  select_sorted packets (NSort.sort idxs).
 
 Record pcapinfo := mkPcap { pi_file : N; pi_min : N; pi_max : N }.
 Record snapshot := mkSnap { sn_ts : N; sn_refs : list (N * N) }.          (* referencedPackets: (file, index) *)
@@ -104,7 +135,7 @@ Section Import.
 
   Definition needed_packets (best : option snapshot) (pi : pcapinfo) (packets : list packet) : list packet :=
     if snap_after best (pi_min pi) then
-      flat_map (fun i => match nth_error packets (N.to_nat i) with Some p => [p] | None => [] end) (refs_for best (pi_file pi))
+      select_indexes packets (refs_for best (pi_file pi))
       ++ (if negb (snap_after best (pi_max pi)) then filter (fun p => negb (snap_after best (p_ts p))) packets else [])
     else packets.
 
